@@ -82,6 +82,8 @@ pub struct Report {
     known_hits: Mutex<BTreeMap<String, u64>>,
     known: Vec<KnownFinding>,
     notes: Mutex<Vec<String>>,
+    /// a self-test of the harness failed somewhere: without a violation the run ends INCONCLUSIVE (exit 2)
+    inconclusive: Mutex<Option<String>>,
     exhaustive: Mutex<Vec<String>>,
     /// set while a failing case is being shrunk: nothing is counted
     frozen: AtomicBool,
@@ -135,6 +137,7 @@ impl Report {
                 .filter(|k| k.property == prop)
                 .collect(),
             notes: Mutex::new(vec![]),
+            inconclusive: Mutex::new(None),
             exhaustive: Mutex::new(vec![]),
             frozen: AtomicBool::new(false),
             abort: AtomicBool::new(false),
@@ -244,6 +247,18 @@ impl Report {
         let mut v = self.violations.lock().unwrap();
         if v.len() < 8 {
             v.push(f);
+        }
+    }
+
+    /// a self-test of the harness (negative control, model self-check) failed for one case: the judgement of that
+    /// case is withheld; the run goes on (another check may still show a violation) and ends INCONCLUSIVE otherwise
+    pub fn inconclusive(&self, why: String) {
+        if self.frozen.load(Ordering::Relaxed) {
+            return;
+        }
+        let mut g = self.inconclusive.lock().unwrap();
+        if g.is_none() {
+            *g = Some(why);
         }
     }
 
@@ -510,6 +525,12 @@ pub fn finish(ctx: &Ctx, rep: &Report, meta: &Meta) -> i32 {
     if !violations.is_empty() && (evals < 1 || nontrivial < 2) {
         // keep the evidence file schema-valid even when the very first case failed
         rep.evaluations.fetch_add(1, Ordering::Relaxed);
+    }
+    if violations.is_empty() {
+        if let Some(why) = rep.inconclusive.lock().unwrap().clone() {
+            out(&format!("INCONCLUSIVE property={} {}", ctx.prop, why));
+            return 2;
+        }
     }
     if violations.is_empty() && (evals < 1 || nontrivial < 2) {
         out(&format!(
